@@ -102,27 +102,29 @@ Proof.
   - apply andb_true_iff in H as [H1 H2]. rewrite H1. cbn [andb]. apply IH; assumption.
 Qed.
 
+Lemma find_end_prefix cl s : prefix_b cl s = true -> find_end cl s = Some (length cl).
+Proof. intros H. destruct s; cbn [find_end]; rewrite H; reflexivity. Qed.
+
+Lemma find_end_skip cl c s : prefix_b cl (c :: s) = false ->
+  find_end cl (c :: s) = option_map S (find_end cl s).
+Proof. intros H. cbn [find_end]. rewrite H. reflexivity. Qed.
+
 Lemma find_end_own_closer cl x follow : cl <> [] -> existsb (N.eqb 10) cl = false ->
   find_sub cl x = false ->
   find_end cl (x ++ 10 :: cl ++ follow) = Some (length x + 1 + length cl)%nat.
 Proof.
   intros Hne Hcl. induction x as [|y x IH]; intros Hx.
-  - cbn [app length]. destruct cl as [|c cl]; [congruence|].
-    cbn [find_end]. cbn [existsb] in Hcl. apply orb_false_iff in Hcl as [Hc _].
-    assert (Hp : prefix_b (c :: cl) (10 :: (c :: cl) ++ follow) = false).
-    { cbn [prefix_b]. rewrite N.eqb_sym in Hc. rewrite Hc. reflexivity. }
-    rewrite Hp.
-    replace (find_end (c :: cl) ((c :: cl) ++ follow)) with (Some (length (c :: cl))).
-    + cbn [option_map]. f_equal.
-    + destruct ((c :: cl) ++ follow) eqn:E; [discriminate|].
-      rewrite <- E. cbn [find_end]. rewrite prefix_b_app.
-      destruct ((c :: cl) ++ follow); reflexivity.
+  - cbn [app length]. rewrite find_end_skip.
+    + rewrite find_end_prefix by apply prefix_b_app. reflexivity.
+    + destruct cl as [|c cl]; [congruence|].
+      cbn [existsb] in Hcl. apply orb_false_iff in Hcl as [Hc _].
+      cbn [prefix_b]. rewrite N.eqb_sym in Hc. rewrite Hc. reflexivity.
   - rewrite find_sub_cons in Hx. apply orb_false_iff in Hx as [Hp Hx].
-    cbn [app find_end].
-    destruct (prefix_b cl (y :: x ++ 10 :: cl ++ follow)) eqn:E.
-    + change (y :: x ++ 10 :: cl ++ follow) with ((y :: x) ++ 10 :: cl ++ follow) in E.
-      apply prefix_before_lf in E; [congruence|exact Hcl].
+    cbn [app]. rewrite find_end_skip.
     + rewrite (IH Hx). cbn [option_map length]. f_equal.
+    + destruct (prefix_b cl (y :: x ++ 10 :: cl ++ follow)) eqn:E; [|reflexivity].
+      change (y :: x ++ 10 :: cl ++ follow) with ((y :: x) ++ 10 :: cl ++ follow) in E.
+      apply prefix_before_lf in E; [congruence|exact Hcl].
 Qed.
 
 Lemma long_closer_nonempty n : long_closer n <> [].
@@ -216,7 +218,7 @@ Proof.
   rewrite find_end_own_closer.
   - cbn [option_map]. f_equal. cbn [length]. rewrite !app_length. cbn [length].
     unfold long_opener. cbn [length]. rewrite !app_length, repeat_length, long_closer_length.
-    cbn [length]. lia.
+    cbn [length]. rewrite ?long_closer_length. lia.
   - apply long_closer_nonempty.
   - apply long_closer_no_lf.
   - rewrite find_sub_cons. apply orb_false_iff. split; [reflexivity | apply comment_level_ok].
@@ -333,7 +335,7 @@ Qed.
 
 Lemma count_lf_snoc_lf s : count_lf (s ++ [10]) = S (count_lf s).
 Proof.
-  unfold count_lf, count_b. rewrite filter_app, app_length. cbn. lia.
+  unfold count_lf, count_b. rewrite filter_app, app_length. cbn [filter]. rewrite N.eqb_refl. cbn [length]. lia.
 Qed.
 
 Lemma has_lf_last_not_lf s : s <> [] -> has_lf s = false -> exists s' c, s = s' ++ [c] /\ c <> 10.
@@ -361,27 +363,35 @@ Qed.
 
 (** ** the generator recognises the comment kind, except for "[x[" texts *)
 
+Lemma chars_before_bracket_eqs n rest k :
+  chars_before_bracket (repeat 61 n ++ 91 :: rest) k = Some (k + n)%nat.
+Proof.
+  revert k; induction n as [|m IH]; intros k; cbn [repeat app chars_before_bracket].
+  - rewrite N.eqb_refl. f_equal. lia.
+  - replace (61 =? 91) with false by reflexivity. replace (is_continuation 61) with false by reflexivity.
+    rewrite IH. f_equal. lia.
+Qed.
+
+Lemma forallb_firstn_repeat n m rest : (m <= n)%nat ->
+  forallb (N.eqb 61) (firstn m (repeat 61 n ++ rest)) = true.
+Proof.
+  revert m; induction n as [|n IH]; intros m Hm.
+  - replace m with 0%nat by lia. reflexivity.
+  - destruct m as [|m]; [reflexivity|]. cbn [repeat app firstn forallb]. rewrite IH by lia. reflexivity.
+Qed.
+
 Theorem multiline_recognised : forall text, has_lf text = true ->
   is_single_line_comment (comment_of text) = false.
 Proof.
   intros text Hlf. unfold comment_of.
   destruct text as [|c0 text0] eqn:Et; [discriminate|]. rewrite <- Et in *. rewrite Hlf.
-  set (n := comment_level text). unfold is_single_line_comment. apply negb_false_iff.
+  generalize (comment_level text). intros n. unfold is_single_line_comment. apply negb_false_iff.
   unfold long_opener. cbn [app]. unfold is_multiline_comment.
-  assert (Hk : forall rest k, chars_before_bracket (repeat 61 n ++ 91 :: rest) k = Some (k + n)%nat).
-  { induction n as [|m IH]; intros rest k; cbn [repeat app chars_before_bracket].
-    - f_equal. lia.
-    - replace (61 =? 91) with false by reflexivity. replace (is_continuation 61) with false by reflexivity.
-      rewrite IH. f_equal. lia. }
-  rewrite <- app_assoc. cbn [app]. rewrite Hk. cbn [Nat.add].
+  rewrite <- app_assoc. cbn [app]. rewrite chars_before_bracket_eqs. cbn [Nat.add].
   destruct (Nat.ltb n 3) eqn:E3; [reflexivity|].
   destruct (is_char_boundary _ n); [|reflexivity].
   apply Nat.ltb_ge in E3. cbn [skipn].
-  assert (Hf : forall m rest, (m <= n)%nat -> forallb (N.eqb 61) (firstn m (repeat 61 n ++ rest)) = true).
-  { clear. induction n as [|n IH]; intros m rest Hm.
-    - replace m with 0%nat by lia. reflexivity.
-    - destruct m as [|m]; [reflexivity|]. cbn [repeat app firstn forallb]. rewrite IH by lia. reflexivity. }
-  apply Hf. lia.
+  apply forallb_firstn_repeat. lia.
 Qed.
 
 Theorem singleline_recognised : forall c text, has_lf (c :: text) = false -> c <> 91 ->
@@ -435,12 +445,12 @@ Section Filters.
     comments_of (map (filter_comments keep) l) = filter keep (comments_of l).
   Proof.
     unfold comments_of. rewrite flat_trivia_filter, filter_filter.
-    induction (flat_map trivia_of l) as [|[k s] m IH]; cbn [filter map]; [reflexivity|].
-    unfold keep_trivia, is_comment. cbn [fst snd].
+    induction (flat_map trivia_of l) as [|[k s] m IH]; [reflexivity|].
+    cbn [filter]. unfold keep_trivia, is_comment in *. cbn [fst snd] in *.
     destruct k; cbn [trivia_kind_eqb negb orb andb].
-    - destruct (keep s); cbn [map filter]; [rewrite (proj1 (conj eq_refl eq_refl)) at 1|]; try rewrite IH.
-      + cbn [filter]. reflexivity.
-      + reflexivity.
+    - rewrite andb_true_r. destruct (keep s) eqn:Ek; cbn [map filter snd]; rewrite Ek.
+      + f_equal. exact IH.
+      + exact IH.
     - exact IH.
   Qed.
 
@@ -449,7 +459,7 @@ Section Filters.
   Proof.
     unfold whitespaces_of. rewrite flat_trivia_filter, filter_filter. f_equal.
     apply filter_ext. intros [k s]. unfold keep_trivia, is_comment. cbn [fst snd].
-    destruct k; reflexivity.
+    destruct k; cbn [trivia_kind_eqb negb orb andb]; [destruct (keep s)|]; reflexivity.
   Qed.
 End Filters.
 
